@@ -3,6 +3,7 @@ import RtenVerif.Lemmas.TensorBoundsSplit
 import RtenVerif.Lemmas.TensorBoundsViews
 import RtenVerif.Lemmas.TensorBoundsSliceM
 import RtenVerif.Lemmas.TensorBoundsOwned
+import RtenVerif.Lemmas.TensorBoundsAxes
 import RtenVerif.Props.C08
 
 /-!
@@ -1439,5 +1440,204 @@ example : M.trySliceR [(3, 4), (4, 1)] 12 [.span 1 3, .span 2 4] =
     some ⟨6, 12, [(2, 4), (2, 1)]⟩ ∧
     ItemsOk (M.toN [(3, 4), (4, 1)]) ([M.RItem.span 1 3, .span 2 4].map M.RItem.toN) :=
   ⟨by decide, .cons ⟨by decide, by decide⟩ (.cons ⟨by decide, by decide⟩ (.nil _))⟩
+
+/-! ## `insert_axis` / `remove_axis` / `move_axis` preserve the invariants
+
+The edited layout has the same element addresses as the original: every valid index of the
+result is a valid index of the source at the same offset (and vice versa), so in-storage and
+injectivity are inherited.  These calls exist on owned tensors and on views alike. -/
+
+/-- Moving one dimension of a layout to another position keeps `VSafe`. -/
+theorem vsafe_reinsert {m : Bool} {E : List (Nat × Nat)} {d : Nat × Nat} {f t n : Nat}
+    (hf : f ≤ E.length) (ht : t ≤ E.length) (hs : VSafe m (insertAt E f d) n) :
+    VSafe m (insertAt E t d) n := by
+  obtain ⟨sz, st⟩ := d
+  refine ⟨fun j hj => ?_, fun hm j j' hj hj' heq => ?_⟩
+  · obtain ⟨k, js, rfl, hk, v, o⟩ := valid_insertAt_inv E t j sz st ht hj
+    obtain ⟨v', o'⟩ := valid_insertAt E f js k sz st hf v hk
+    have := hs.in_bounds _ v'
+    omega
+  · obtain ⟨k, js, rfl, hk, v, o⟩ := valid_insertAt_inv E t j sz st ht hj
+    obtain ⟨k', js', rfl, hk', v', o'⟩ := valid_insertAt_inv E t j' sz st ht hj'
+    obtain ⟨w, p⟩ := valid_insertAt E f js k sz st hf v hk
+    obtain ⟨w', p'⟩ := valid_insertAt E f js' k' sz st hf v' hk'
+    have := hs.inj hm _ _ w w' (by omega)
+    obtain ⟨h1, h2⟩ := insertAt_inj2 js js' f k k'
+      (by rw [valid_length v, valid_length v']) this
+    rw [h1, h2]
+
+theorem vsafe_insert_unit {m : Bool} {ds : List (Nat × Nat)} {i st n : Nat}
+    (hi : i ≤ ds.length) (hs : VSafe m ds n) : VSafe m (insertAt ds i (1, st)) n := by
+  refine ⟨fun j hj => ?_, fun hm j j' hj hj' heq => ?_⟩
+  · obtain ⟨k, js, rfl, hk, v, o⟩ := valid_insertAt_inv ds i j 1 st hi hj
+    have := hs.in_bounds _ v
+    have : k = 0 := by omega
+    subst this
+    omega
+  · obtain ⟨k, js, rfl, hk, v, o⟩ := valid_insertAt_inv ds i j 1 st hi hj
+    obtain ⟨k', js', rfl, hk', v', o'⟩ := valid_insertAt_inv ds i j' 1 st hi hj'
+    have hk0 : k = 0 := by omega
+    have hk0' : k' = 0 := by omega
+    subst hk0 hk0'
+    have := hs.inj hm _ _ v v' (by omega)
+    rw [this]
+
+theorem vsafe_remove_unit {m : Bool} {E : List (Nat × Nat)} {i st n : Nat}
+    (hi : i ≤ E.length) (hs : VSafe m (insertAt E i (1, st)) n) : VSafe m E n := by
+  refine ⟨fun js hj => ?_, fun hm js js' hj hj' heq => ?_⟩
+  · obtain ⟨v, o⟩ := valid_insertAt E i js 0 1 st hi hj (by omega)
+    have := hs.in_bounds _ v
+    omega
+  · obtain ⟨v, o⟩ := valid_insertAt E i js 0 1 st hi hj (by omega)
+    obtain ⟨v', o'⟩ := valid_insertAt E i js' 0 1 st hi hj' (by omega)
+    have := hs.inj hm _ _ v v' (by omega)
+    exact (insertAt_inj2 js js' i 0 0 (by rw [valid_length hj, valid_length hj']) this).1
+
+theorem removeAxis_shape {dims d' : List (Nat × Nat)} {i : Nat} (h : removeAxis dims i = some d') :
+    ∃ st, i ≤ d'.length ∧ dims = insertAt d' i (1, st) := by
+  unfold removeAxis at h
+  split at h
+  · next hc =>
+    cases h
+    refine ⟨strideAt dims i, ?_, ?_⟩
+    · have := length_eraseIdx_lt dims i hc.1; omega
+    · have h1 := insertAt_eraseIdx dims i (0, 0) hc.1
+      have h2 : dims.getD i (0, 0) = (1, strideAt dims i) := by
+        have := hc.2
+        simp only [sizeAt] at this
+        simp only [strideAt]
+        rw [← this]
+    
+      rw [h2] at h1
+      exact h1.symm
+  · cases h
+
+/-- **C06.T2t** `remove_axis`, `insert_axis` and `move_axis` (owned tensors and views) keep
+`VSafe`: the result addresses exactly the elements the source addresses. -/
+theorem c06_T2_axis_edits {m : Bool} {dims d' : List (Nat × Nat)} {n : Nat}
+    (hs : VSafe m dims n) :
+    (∀ i, removeAxis dims i = some d' → VSafe m d' n) ∧
+    (∀ i, insertAxis dims i = some d' → VSafe m d' n) ∧
+    (∀ src dst, moveAxis dims src dst = some d' → VSafe m d' n) := by
+  refine ⟨fun i h => ?_, fun i h => ?_, fun src dst h => ?_⟩
+  · obtain ⟨st, hi, hd⟩ := removeAxis_shape h
+    rw [hd] at hs
+    exact vsafe_remove_unit hi hs
+  · unfold insertAxis at h
+    split at h
+    · next hi => cases h; exact vsafe_insert_unit hi hs
+    · cases h
+  · unfold moveAxis at h
+    split at h
+    · next hc =>
+      cases h
+      have hlen := length_eraseIdx_lt dims src hc.1
+      have hd := insertAt_eraseIdx dims src (0, 0) hc.1
+      rw [← hd] at hs
+      exact vsafe_reinsert (by omega) (by omega) hs
+    · cases h
+
+/-- Non-vacuity: the three edits on a transposed 3×1×2 layout. -/
+example : removeAxis [(3, 1), (1, 7), (2, 3)] 1 = some [(3, 1), (2, 3)] ∧
+    insertAxis [(3, 1), (2, 3)] 2 = some [(3, 1), (2, 3), (1, 6)] ∧
+    moveAxis [(3, 1), (1, 7), (2, 3)] 0 2 = some [(1, 7), (2, 3), (3, 1)] := by decide
+
+/-- Layout edits of an owned tensor. -/
+inductive LayoutOp where
+  | removeAxis (index : Nat)
+  | insertAxis (index : Nat)
+  | moveAxis (src dst : Nat)
+  deriving DecidableEq, Repr
+
+/-- A failing edit panics before anything is modified (fix `90df0e8`). -/
+def stepLayout (t : Owned) : LayoutOp → Owned
+  | .removeAxis i => match removeAxis t.dims i with
+    | some d => { t with dims := d }
+    | none => t
+  | .insertAxis i => match insertAxis t.dims i with
+    | some d => { t with dims := d }
+    | none => t
+  | .moveAxis s d => match moveAxis t.dims s d with
+    | some x => { t with dims := x }
+    | none => t
+
+/-- Any mutating call on an owned tensor modelled here. -/
+inductive OwnedOpX where
+  | base (op : OwnedOp)
+  | layout (op : LayoutOp)
+  deriving DecidableEq, Repr
+
+def stepOwnedX (t : Owned) : OwnedOpX → Owned
+  | .base op => stepOwned t op
+  | .layout op => stepLayout t op
+
+theorem osafe_layout_step {t : Owned} (op : LayoutOp) (hs : OSafe t) : OSafe (stepLayout t op) := by
+  have hax := c06_T2_axis_edits (d' := (stepLayout t op).dims) hs.vsafe
+  cases op with
+  | removeAxis i =>
+    simp only [stepLayout] at hax ⊢
+    cases h : removeAxis t.dims i with
+    | none => exact hs
+    | some d =>
+      rw [h] at hax
+      obtain ⟨st, hi, hd⟩ := removeAxis_shape h
+      have hsf := hs.shape_fits
+      have hof := hs.offset_fits
+      rw [hd, prodNZ_insertAt] at hsf
+      rw [hd, maxOffset_insertAt] at hof
+      exact ⟨hax.1 i (by rw [h]), hs.cap, by simpa [prodNZ] using hsf, by simpa using hof⟩
+  | insertAxis i =>
+    simp only [stepLayout] at hax ⊢
+    cases h : insertAxis t.dims i with
+    | none => exact hs
+    | some d =>
+      rw [h] at hax
+      have hd : ∃ st, d = insertAt t.dims i (1, st) := by
+        unfold insertAxis at h
+        split at h
+        · cases h; exact ⟨_, rfl⟩
+        · cases h
+      obtain ⟨st, rfl⟩ := hd
+      refine ⟨hax.2.1 i (by rw [h]), hs.cap, ?_, ?_⟩
+      · show prodNZ (shapeOf (insertAt t.dims i (1, st))) ≤ isizeMax
+        rw [prodNZ_insertAt]; simpa [prodNZ] using hs.shape_fits
+      · show maxOffset (insertAt t.dims i (1, st)) < isizeMax
+        rw [maxOffset_insertAt]; simpa using hs.offset_fits
+  | moveAxis src dst =>
+    simp only [stepLayout] at hax ⊢
+    cases h : moveAxis t.dims src dst with
+    | none => exact hs
+    | some d =>
+      rw [h] at hax
+      have hd : src < t.dims.length ∧
+          d = insertAt (t.dims.eraseIdx src) dst (t.dims.getD src (0, 0)) := by
+        unfold moveAxis at h
+        split at h
+        · next hc => cases h; exact ⟨hc.1, rfl⟩
+        · cases h
+      obtain ⟨hsrc, rfl⟩ := hd
+      have hdims := insertAt_eraseIdx t.dims src (0, 0) hsrc
+      have hsf := hs.shape_fits
+      have hof := hs.offset_fits
+      rw [← hdims, prodNZ_insertAt] at hsf
+      rw [← hdims, maxOffset_insertAt] at hof
+      refine ⟨hax.2.2 src dst (by rw [h]), hs.cap, ?_, ?_⟩
+      · show prodNZ (shapeOf (insertAt (t.dims.eraseIdx src) dst (t.dims.getD src (0, 0)))) ≤ _
+        rw [prodNZ_insertAt]; exact hsf
+      · show maxOffset (insertAt (t.dims.eraseIdx src) dst (t.dims.getD src (0, 0))) < _
+        rw [maxOffset_insertAt]; exact hof
+
+/-- **C06.T2u** any program of `clip_dim`, `append`, `reshape`, `make_contiguous`, `remove_axis`,
+`insert_axis` and `move_axis` calls (successful or failing) on an owned tensor preserves the
+invariant. -/
+theorem c06_T2_owned_programX (ops : List OwnedOpX) {t : Owned} (hs : OSafe t) :
+    OSafe (ops.foldl stepOwnedX t) := by
+  induction ops generalizing t with
+  | nil => exact hs
+  | cons op ops ih =>
+    apply ih
+    cases op with
+    | base op => exact c06_T2_owned_step op hs
+    | layout op => exact osafe_layout_step op hs
 
 end RtenVerif.TensorBounds
